@@ -278,8 +278,10 @@ bool cmb_event_execute_next(void)
         return false;
     }
 
-    /* Pull off the next event and decode it */
-    struct event_peek *tmp = (struct event_peek *)cmi_hashheap_dequeue(event_queue);
+    /* Pull off the next event and decode it. Work on a copy: waking the event
+     * waiters below schedules new events, which may reallocate the heap. */
+    struct event_peek evt = *(struct event_peek *)cmi_hashheap_dequeue(event_queue);
+    struct event_peek *tmp = &evt;
 
     /* Advance clock to time of the next event */
     const double new_time = event_queue->heap[0].dsortkey;
